@@ -601,3 +601,63 @@ def writeReq (r : Req) : Bytes :=
     joinSp (r.cmd :: r.keys) ++ nr ++ crlf
 
 end Proto
+
+/-! ### `Response.Read` (the project's own client-side reply parser) -/
+namespace Proto
+
+structure PItem where
+  key : Bytes
+  flag : Int
+  cas : Int := 0
+  body : Bytes
+deriving DecidableEq, Repr
+
+structure PResp where
+  status : Bytes
+  msg : Bytes := []
+  items : List PItem := []      -- the reply's map: one entry per key, a later one replaces an earlier one
+deriving DecidableEq, Repr
+
+def putItem (items : List PItem) (it : PItem) : List PItem :=
+  if items.any (fun x => x.key == it.key) then items.map (fun x => if x.key == it.key then it else x) else items ++ [it]
+
+def endStatuses : List Bytes :=
+  [ascii "END", ascii "STORED", ascii "NOT_STORED", ascii "DELETED", ascii "NOT_FOUND", ascii "OK"]
+def msgStatuses : List Bytes := [ascii "ERROR", ascii "SERVER_ERROR", ascii "CLIENT_ERROR", ascii "VERSION"]
+
+/-- `Response.Read`: the parsed reply and the bytes left over; `none`: an error (or a panic on a line shorter than 2 bytes) -/
+def readResp (cfg : Cfg) : Nat → Bytes → List PItem → Option (PResp × Bytes)
+  | 0, _, _ => none
+  | fuel + 1, inp, items =>
+    match readLine inp with
+    | none => none
+    | some line =>
+      if line.length < 2 then none else
+      let parts := fields (line.take (line.length - 2))
+      let rest := inp.drop line.length
+      match parts with
+      | [] => none
+      | status :: args =>
+        if status == ascii "VALUE" then
+          if parts.length < 4 then none else
+          match atoi (args.getD 1 []), atoi (args.getD 2 []) with
+          | some flag, some len =>
+            if !(0 ≤ len && len ≤ (cfg.bodyMax : Int)) then none else
+            let cas? : Option Int := if parts.length == 5 then atoi (args.getD 3 []) else some 0
+            match cas? with
+            | none => none
+            | some cas =>
+              let L := len.toNat
+              if rest.length < L then none else
+              readResp cfg fuel (rest.drop (L + 2)) (putItem items { key := args.getD 0 [], flag := flag, cas := cas, body := rest.take L })
+          | _, _ => none
+        else if status == ascii "STAT" then
+          if parts.length ≠ 3 then none
+          else readResp cfg fuel rest (putItem items { key := args.getD 0 [], flag := 0, body := args.getD 1 [] })
+        else if endStatuses.contains status then some ({ status := status, items := items }, rest)
+        else if msgStatuses.contains status then some ({ status := status, msg := joinSp args, items := items }, rest)
+        else match atoi status with
+          | some _ => some ({ status := ascii "INCR", msg := status, items := items }, rest)
+          | none => none
+
+end Proto
